@@ -479,8 +479,16 @@ func runHistory(h *history) (res hres) {
 	if h.Session == "repl" {
 		api0 = "Run"
 	}
-	if o := s.invoke(ctx0, api0, setupSource(h.Session, setupX), false, "", nil, nil); o.Err != "" || o.Harness != "" || o.Value != fmt.Sprintf("int:%d", setupX) {
-		res.Harness = fmt.Sprintf("set-up failed: %+v", o)
+	o0 := s.invoke(ctx0, api0, setupSource(h.Session, setupX), false, "", nil, nil)
+	if o0.Harness != "" {
+		res.Harness = "set-up failed: " + o0.Harness
+		return
+	}
+	// the set-up is the first run on a new VM; what it must give is known by construction
+	want0 := outcome{Value: fmt.Sprintf("int:%d", setupX)}
+	if m := compare(&o0, &want0); m != "" {
+		res.Symptom, res.Victim, res.API, res.Preceded = m, 0, api0, "first-run"
+		res.Steps = []step{{I: 0, Inv: inv{API: api0, Beh: "value", Flavor: "set-up"}, XBefore: setupX, Got: o0, Want: want0, Mismatch: m}}
 		return
 	}
 	x := setupX
